@@ -100,7 +100,7 @@ def run_case(case, exe, stubdir, workroot, R, keep=False):
             diag = diag.replace(wd + os.sep, "")
             if not ok:
                 errors, _, _ = M.classify_diagnostics(diag, os.path.basename(pth))
-                cause = compile_cause(errors[0][2]) if errors else "unparsed"
+                cause = compile_cause(errors[0][2], text) if errors else "unparsed"
                 if cause not in causes:
                     causes.add(cause)
                     V.append(("not_self_contained:%s:%s" % (lang, cause), "\n".join(l for _, _, l in errors[:4]) or diag[:400]))
